@@ -4,8 +4,8 @@
      <maxDepth|-1> <ncalls> ( <api> <k> <kind> <beh> )*
 
   api: RP | CA n | CO n | TR | TG | ER.   k: 0 = no fault, else the k-th probe of this call faults; kind: t | i.
-  beh (prefix form): K | S a b | P id | T | I | Ft n b | Fc n b | Fn n b | Fo b | FO ret b | Fr b | Fb b | Fp b
-                   | Y hc hf body handler fin | G n b | At b | Aw b | Ap b | Bt b | Bw b | Bp b | J b
+  beh (prefix form): K | S a b | P id | T | BR | RT | I | Ft n b | Fc n b | Fn n b | Fo b | FO ret b | Fr b | Fb b | Fp b
+                   | Y hc hf body handler fin | G n b | At b | Aw b | Ap b | Aq b | Bq b | Bt b | Bw b | Bp b | J b
   Answer: per call  <outcome>|<trace>|<state>  joined by " ; ", where trace = "id:c,t,i,r …" and
   state = sp,sb,prgNil,stashGlobal,privNil,callLen,tryLen,iterLen,refLen,jobs,interrupted,privDepth,
   curAsyncRunnerNil (the model has no async runner: constant 1),newTargetNil,args.
@@ -27,6 +27,8 @@ def parseBeh : Nat → List String → Option (Beh × List String)
     match toks with
     | "K" :: r => some (.skip, r)
     | "T" :: r => some (.throw_, r)
+    | "BR" :: r => some (.break_, r)
+    | "RT" :: r => some (.return_, r)
     | "I" :: r => some (.intr, r)
     | "P" :: id :: r => some (.probe (natOf id), r)
     | "S" :: r => do
@@ -75,6 +77,12 @@ def parseBeh : Nat → List String → Option (Beh × List String)
     | "Ap" :: r => do
       let (b, r1) ← parseBeh fuel r
       pure (.api .runProgramRec b, r1)
+    | "Aq" :: r => do
+      let (b, r1) ← parseBeh fuel r
+      pure (.api .runProgram b, r1)
+    | "Bq" :: r => do
+      let (b, r1) ← parseBeh fuel r
+      pure (.swallow .runProgram b, r1)
     | "Bt" :: r => do
       let (b, r1) ← parseBeh fuel r
       pure (.swallow .try_ b, r1)
